@@ -357,6 +357,11 @@ impl<S: BitmapSlice + Send + Sync> PassthroughFs<S> {
         flags: u32,
         fuse_flags: u32,
     ) -> io::Result<(Option<Handle>, OpenOptions, Option<u32>)> {
+        // When seal_size is set a truncating open must not change the file size.
+        if self.seal_size.load(Ordering::Relaxed) && flags & (libc::O_TRUNC as u32) != 0 {
+            return Err(eperm());
+        }
+
         let killpriv = if self.killpriv_v2.load(Ordering::Relaxed)
             && (fuse_flags & FOPEN_IN_KILL_SUIDGID != 0)
         {
